@@ -330,7 +330,8 @@ def oracle_exec(sim, out):
             out.violate("exec-log-mismatch", _first_diff(rr.exec_log, m.log) + (":rerun" if i else ""),
                         f"run {i}: executed {rr.exec_log}\nexpected {m.log}")
         if rr.cleanups_left:
-            out.violate("cleanup-left", f"{len(rr.cleanups_left)}", f"run {i}: {rr.cleanups_left}")
+            # (no count in the key: how many are left can depend on the depth of the call stack)
+            out.violate("cleanup-left", "registered-after-run", f"run {i}: {len(rr.cleanups_left)} left: {rr.cleanups_left[:4]}")
         for j, (now, before) in enumerate(zip(rr.objs_state, env.obj_snap)):
             if set(now) != set(before) or any(now[k] is not before[k] for k in before):
                 out.violate("patch-not-restored", "attr-present" if set(now) != set(before) else "value-differs",
@@ -436,10 +437,13 @@ def oracle_details(sim, rr, out):
             if (d["type"][0] == "text") != (shape == "text"):
                 out.violate("detail-overwritten", "user-detail-type", f"{name!r} type {d['type']}")
     # (b) mismatch / fixture payloads somewhere (renamed allowed), unless the user clobbered them
-    for src, name, payload in m.mm_payloads + m.fx_payloads:
+    volatile = [(src, name, b"".join(m.cells[cell])) for src, name, cell in getattr(m, "mm_cellrefs", [])]
+    if volatile:
+        out.probe("volatile-mismatch-detail")
+    for src, name, payload in m.mm_payloads + m.fx_payloads + volatile:
         if payload in all_bytes:
             continue
-        if payload in clobbered:
+        if payload in clobbered or (clobbered and (src, name, payload) in volatile):
             out.probe("user-clobbered-generated")
             continue
         out.violate("detail-lost", "mismatch-detail" if isinstance(src, int) else "fixture-detail",
@@ -467,7 +471,8 @@ def oracle_details(sim, rr, out):
         if need is None:
             continue
         n = sum(1 for t in tbs if need in t)
-        if n >= 1:
+        wanted = sum(1 for r2 in m.R if r2.tb_marker == need) if where != "decorator-xfail" else 1
+        if n >= wanted:
             continue
         if any(need in c for c in clob_text):
             out.probe("user-clobbered-generated")
